@@ -241,6 +241,16 @@ func (e *exec) readOnlyCheck(src, where string) {
 					}
 					continue
 				}
+				if tag := e.cellKF(k, smp.T); !all[smp.T] && tag != "" {
+					// a listed finding of the write path already explains why a full log replay (which is what the read-only
+					// open does, where the read-write open may start from a snapshot) brings this sample back
+					e.res.Count("tolerated:"+tag, 1)
+					if e.cfg.KF == tag {
+						e.fail("ro-vs-rw", "known:"+tag, "%s: read-only open (%s query) returns %s of series %s that the read-write open does not return", where, kind, smp, k)
+						return false
+					}
+					continue
+				}
 				if !all[smp.T] {
 					e.fail("ro-vs-rw", "ro-extra-sample:"+kind, "%s: read-only open (%s query) returns %s of series %s that a read-write open does not return", where, kind, smp, k)
 					return false
@@ -402,6 +412,15 @@ func (e *exec) readOnlyCheck(src, where string) {
 			all[smp.T] = true
 		}
 		for _, smp := range v {
+			if tag := e.cellKF(k, smp.T); !all[smp.T] && tag != "" {
+				// (as above: the read-only head is a full log replay)
+				e.res.Count("tolerated:"+tag, 1)
+				if e.cfg.KF == tag {
+					e.fail("ro-flushwal", "known:"+tag, "%s: FlushWAL block holds %s of series %s that the read-write open does not return", where, smp, k)
+					return
+				}
+				continue
+			}
 			if !all[smp.T] {
 				e.fail("ro-flushwal", "flushed-block-has-extra-data", "%s: FlushWAL block holds %s of series %s that a read-write open does not return", where, smp, k)
 				return
